@@ -139,6 +139,41 @@ def c_periodic(t_us: int) -> str:
     return pick_dev(devs, ALLOWED)
 
 
+def c_periodic_with_acks(a_us: int, b_us: int, respond: bool) -> str:
+    """
+    Periodic emission does not depend on what the peer sends: two server KEEPALIVEs (acknowledgements, or
+    respond-flagged ones) arrive at SYMBOLIC instants a <= a+b inside the first 3.5 periods - in particular
+    shortly before a tick - and the client still emits a respond-flagged KEEPALIVE exactly at P, 2P and 3P and
+    no other respond-flagged one.  (seed C15-4)
+
+    pre: 0 <= a_us and 0 <= b_us and a_us + b_us <= (7 * P_US) // 2
+    post: _ in ALLOWED
+    """
+    loop = new_loop()
+    with loop:
+        t, c = _mk(loop, 'client', ka=timedelta(microseconds=P_US), ml=timedelta(days=24))
+        total = (7 * P_US) // 2
+        loop.advance_us(a_us)
+        for gap in (b_us, total - a_us - b_us):
+            f = KeepAliveFrame()
+            f.flags_respond = respond
+            t.feed_wire(f)
+            loop.run_ready()
+            loop.advance_us(gap)
+        ticks = [(ts, f) for ts, f in t.sent if isinstance(f, KeepAliveFrame) and f.flags_respond]
+        devs = []
+        stats.note(len(ticks) >= 1, {'p_us': P_US, 'ticks': len(ticks)})
+        if len(ticks) != 3:
+            devs.append('number-of-KEEPALIVEs-differs-from-elapsed-periods')
+        for i, (ts, f) in enumerate(ticks):
+            if ts != (i + 1) * P_US:
+                devs.append('KEEPALIVE-not-at-multiple-of-period')
+        d = generic_dev(loop, c)
+        if d:
+            devs.append(d)
+    return pick_dev(devs, ALLOWED)
+
+
 L_US = part('l_us', 3000000)
 NGAPS = part('ngaps', 2)
 
